@@ -169,7 +169,7 @@ func checkC09(c *Ctx) {
 		const cmap = `dict.ToDict(slice.Map(\x0. (x0.Name, false), lookupUniInfo(payload(FType_FUnion)).Cases))`
 		want := `seq[match(p0; FType_FUnion -> seq[assign($0 := ` + cmap + `); slice.Fold(\x1 x2. seq[dict.Add(x1, x2, true)] x1, $0, slice.Map(\x3. x3.CaseId, slice.Map(\x4. x4.UnionPattern, p1))); ` +
 			`assign($1 := slice.Filter(\x5. not(#1(x5)), dict.KVs($0))); if(slice.IsNotEmpty($1), seq[psPanic(p2, frt.SInterP("match does not cover all cases. Can't find case: %s.", #0(slice.Head($1))))])]; _ -> seq[])]`
-		r.Check(f.canon(nf) == f.canon(want), "C09.b", "exaustiveCheck", "set-computation", c.Pos(f.M.Fset, fn.Decl.Pos()),
+		r.Check(f.canon(nf) == f.canonSpec(want), "C09.b", "exaustiveCheck", "set-computation", c.Pos(f.M.Fset, fn.Decl.Pos()),
 			"cmap = {case name -> false}; every arm's case id is set true; the match is rejected iff an entry is still false, i.e. iff names(Cases) is not a subset of caseIds(arms); no early return",
 			"the set computation is not the specified one (names(Cases) minus caseIds(arms) non-empty ⇒ reject); "+diffHint(nf, want))
 	} else {
